@@ -106,6 +106,15 @@ let ref_new c =
     | "empty" -> false_sys
     | "cons" -> sys_of_cons (read_cons c dim)
     | "gens" -> sys_of_gens dim (read_gens c dim)
+    | "box" ->
+        (* conversion from a rational box: the box itself for NNC, its topological closure for C *)
+        let cons = List.concat (List.init dim (fun i ->
+          let lk = next c in let ln = nextz c in let ld = nextz c in let uk = next c in let un = nextz c in let ud = nextz c in
+          let unit z = List.init dim (fun j -> if j = i then z else Z0) in
+          (match lk with "[" -> [ { ccoefs = unit ld; ccst = Z.opp ln; ckd = GE } ] | "(" -> [ { ccoefs = unit ld; ccst = Z.opp ln; ckd = GT } ] | _ -> []) @
+          (match uk with "]" -> [ { ccoefs = unit (Z.opp ud); ccst = un; ckd = GE } ] | ")" -> [ { ccoefs = unit (Z.opp ud); ccst = un; ckd = GT } ] | _ -> []))) in
+        let s = sys_of_cons cons in
+        if topo = "C" then closure_of { topo = "NNC"; dim; s; gens = None } else s
     | "from" -> let y = get (nexti c) in if topo = "C" && y.topo = "NNC" then closure_of y else y.s
     | _ -> raise (Skip ("new " ^ how)) in
   id, { topo; dim; s; gens = None }
